@@ -349,7 +349,8 @@ OutputIsIso == pc = "done" => Iso(inm, out, Sigma)
 NothingDroppedWithoutPass == (pc = "done" /\ ~GcRan) => AllKept(inm, Sigma)
 
 \* C06 + C07 (design level): after GC exactly the reachable entities are kept; the only residue is one memory
-ResidueMem == IF \E n \in Reach(inm, {}) : n[1] = "data" THEN {<<"memory", i>> : i \in 0..(Count(inm, "memory") - 1)} ELSE {}
+ResidueMem == IF (\E n \in Reach(inm, {}) : n[1] = "data") /\ ~(\E n \in Reach(inm, {}) : n[1] = "memory")
+              THEN {<<"memory", i>> : i \in 0..(Count(inm, "memory") - 1)} ELSE {}
 GcExact ==
   GcRan => /\ Reach(inm, {}) \subseteq KeptNodes(Sigma)
            /\ KeptNodes(Sigma) \ Reach(inm, {}) \subseteq ResidueMem
